@@ -18,6 +18,8 @@ non-exchanged atoms (negative labels).
 Further workloads: an isobaric run on a left-handed cell, one whose moves are handed to the driver's constructor with
 molecular / frozen labels, a grand-canonical run whose state point is re-assigned live.  An average that is off by more
 than a factor of three in every chain on the same side is flagged (and re-measured) whatever its z-score.
+Grand-canonical ideal gases are also confined to a slab of the cell through the exchange move's check_move (one
+placement per trial with refused placements as failed trials; placements redrawn with the slab as accessible volume).
 """
 from __future__ import annotations
 
@@ -86,6 +88,8 @@ def plan(tier, seed):
     W.append({"kind": "grand", "name": "grand-lam3.0-Ar-state-point-reassigned-900K", "lam": 3.0, "mol": False, "tri": False, "mixed": False, "retune": 900.0, "L": L["g"]})
     for lam, mol, fw in [(3.0, False, 6)] + ([(3.0, True, 4), (8.0, False, 12)] if big else []):
         W.append({"kind": "grand", "name": f"grand-lam{lam}-{'N2' if mol else 'Ar'}-framework{fw}", "lam": lam, "mol": mol, "tri": False, "mixed": True, "fw": fw, "L": L["g"]})
+    for lam, mol, f, mode in [(4.0, False, 0.5, "single-attempt"), (3.0, False, 0.3, "redrawn")] + ([(3.0, True, 0.5, "single-attempt"), (8.0, False, 0.7, "single-attempt")] if big else []):
+        W.append({"kind": "grand", "name": f"grand-lam{lam}-{'N2' if mol else 'Ar'}-restricted-region-{f}-{mode}", "lam": lam, "mol": mol, "tri": False, "mixed": False, "region": {"f": f, "mode": mode}, "L": L["g"]})
     return [{"name": w["name"], "w": w, "seed": seed} for w in W]
 
 
@@ -207,7 +211,10 @@ def chain_grand(w, seed, L):
     species = sims.molecule_template(2 if w["mol"] else 1)
     size = len(species)
     lam3 = thermal_wavelength(float(species.get_masses().sum()), T) ** 3
-    mu = kT * math.log(w["lam"] * lam3 / V)
+    # a restricted region (the documented use of check_move on an exchange move): particles may only be placed in the
+    # slab 0 <= x < f of the cell, the ideal gas lives in the volume f V and its mean number is lam there
+    Veff = V * (float(w["region"]["f"]) if w.get("region") else 1.0)
+    mu = kT * math.log(w["lam"] * lam3 / Veff)
     r = np.random.default_rng(seed % 2**32)
     n0 = int(r.poisson(w["lam"]))
     atoms = Atoms(cell=cell, pbc=True)
@@ -218,15 +225,34 @@ def chain_grand(w, seed, L):
         # move's particle selection must not either
         atoms += Atoms("Cu" * fw, positions=r.uniform(0, 1, (fw, 3)) @ cell)
         labels += [-1] * fw
+    region = w.get("region")
+    f_allowed = float(region["f"]) if region else 1.0
     for m in range(n0):
         a = species.copy()
-        a.translate(r.uniform(0, 1, 3) @ cell)
+        a.translate((r.uniform(0, 1, 3) * [f_allowed, 1, 1]) @ cell)
         atoms += a
         labels += [m] * size
     atoms.calc = IdealGas()
     mc = GrandCanonical(atoms, exchange_atoms=species, temperature=T, chemical_potential=mu, number_of_exchange_particles=n0, max_cycles=1, seed=seed)
     op = {"t": "TranslationRotation"} if w["mol"] else None
     mc.add_move(sims.build_move({"t": "E", "op": op}, np.array(labels, dtype=int), {}), name="x", probability=1.0)
+    if region:
+        icell_ = np.linalg.inv(cell)
+
+        def in_region(context, f=f_allowed, icell_=icell_):
+            p = context.atoms.positions[context._moving_indices].mean(0)
+            return bool(((p @ icell_)[0] % 1.0) < f)
+
+        xm = mc.moves["x"].move
+        xm.check_move = in_region
+        if region["mode"] == "single-attempt":
+            # one placement per trial, drawn from the whole cell: a refused placement is a failed trial and the volume
+            # the proposal is drawn from stays the cell volume (the context's default accessible volume)
+            xm.max_attempts = 1
+        else:
+            # placements are redrawn until one is allowed (default max_attempts): the proposal is uniform in the
+            # region, whose volume is given to the simulation as its accessible volume
+            mc.accessible_volume = Veff
     if w["mixed"]:
         mc.add_move(sims.build_move({"t": "D", "op": {"t": "TranslationRotation"} if w["mol"] else {"t": "Ball", "step": 1.0}}, np.array(labels, dtype=int), {}), name="d", probability=0.5)
     if w.get("retune"):
@@ -246,7 +272,7 @@ def chain_grand(w, seed, L):
         now = len(atoms)
         if now == prev + size and mc.move_history and mc.move_history[-1][1]:
             p = atoms.positions[-size:]
-            ins_frac.append((p.mean(0) @ icell) % 1.0)
+            ins_frac.append(((p.mean(0) @ icell) % 1.0) / [f_allowed, 1, 1])
             if size == 2:
                 b = p[1] - p[0]
                 ins_dir.append(b / np.linalg.norm(b))
